@@ -148,6 +148,7 @@ type cursorState struct {
 	fin     int
 	quit    chan struct{}
 	maxGauge int
+	census   *Census
 }
 
 // buildStore writes the store from the controller with every gate open.
@@ -507,6 +508,7 @@ func RunCursor(r *Run, variant string) {
 	}
 	simrt.SetMode(simrt.ModeOff)
 	st.buildStore()
+	st.census = TakeCensus(st.meta, st.disk, true)
 	if st.simMeta != nil {
 		st.simMeta.Bug = wl.MetaBug
 	}
@@ -779,6 +781,18 @@ func (st *cursorState) evaluate() {
 				}
 			}
 		}
+		// C23 / C24 on this query's stats and attributed store calls.
+		var calls []Call
+		for _, c := range st.disk.CallsSnapshot() {
+			if c.Tag == cq.Tag {
+				calls = append(calls, c)
+			}
+		}
+		obs := queryObs{Tag: cq.Tag, Q: cq.Q, Stats: cq.Stats, Returned: got, NReturned: len(cq.IDs), Calls: calls,
+			Clean:         cq.Err == nil && len(mine) == 0 && !cancelled && cq.CtxErrAfter == nil && !cq.ClosedByMe,
+			Uninterrupted: !cancelled && cq.CtxErrAfter == nil && !cq.ClosedByMe}
+		CheckStatsStatic(r, obs, st.census)
+		CheckPruningStatic(r, obs, st.census)
 		for id, n := range got {
 			if n > 1 {
 				r.Violate("C02", "row-returned-twice", "query %s returned row %s %d times", cq.Tag, id, n)
